@@ -794,7 +794,11 @@ func genC21(c *hlib.Ctx) {
 		rf := r.Range(1, 3)
 		var ovs []shardOv
 		if r.Bool() {
-			ovs = append(ovs, shardOv{typ: "g", size: r.Range(2, 6) * len(l), tenants: []string{"tenant-1*"}})
+			sz := r.Range(2, c.N(3, 4)) * len(l)
+			if !za {
+				sz = r.Range(4, shardDraws) // the op line carries shardDraws positions per zone
+			}
+			ovs = append(ovs, shardOv{typ: "g", size: sz, tenants: []string{"tenant-1*"}})
 		}
 		// 100+ tenants per ring, asked in ops of 25 (every sub-ring has 1000 sections per selected node)
 		nt := r.Range(100, 125)
